@@ -206,6 +206,9 @@ def grid(tier):
             for section in ("Curves", "Well", "Parameter", "Version"):        # ~Version is written from a deep copy of the section
                 for version in (1.2, 2.0):
                     yield {"kind": "roundtrip", "names": list(seq), "section": section, "version": version}
+    for names, section in ((["STRT"], "Well"), (["STOP", "STOP"], "Well"), (["step"], "Well"), (["VERS"], "Version"), (["WRAP"], "Version")):
+        for version in (1.2, 2.0):       # duplicates of the items the writer itself looks up (witnesses of a known finding)
+            yield {"kind": "roundtrip", "names": names, "section": section, "version": version}
     for n in range(0, 3):
         for seq in itertools.product(["A", "", "UNKNOWN", "unknown"], repeat=n):
             for surplus in (0, 1, 2, 3):
@@ -355,7 +358,9 @@ def run_roundtrip(ctx, case):
     try:
         las.write(buf, version=version)
     except Exception as e:
-        ctx.violation("write-raised", "write() raised %r" % (e,), case)
+        table = {"STRT", "STOP", "STEP", "VERS", "WRAP"}
+        dup = any(n.upper() in table for n in names) and section in ("Well", "Version")
+        ctx.violation("write-raised:duplicated-table-mnemonic" if dup else "write-raised", "write() raised %r" % (e,), case)
         return
     text = buf.getvalue()
     if [it.original_mnemonic for it in secops.raw_items(sec)] != mem_originals:
